@@ -1177,6 +1177,29 @@ func Run(r *mc.Run) {
 		"algorithm_selections": len(sels), "ops": "writers, readers (3 deliveries), writer1, reader1, hasher"}, long, []string{"writers", "readers"}, sels, srcs)
 	hashScenario(r, "long-streams-singular", map[string]interface{}{"lengths": longLens, "algorithm_selections": "each single name"}, long, []string{"writer1", "reader1", "hasher"}, single, srcs)
 
+	// splits around the block sizes: a write/read SHORTER than a block followed by one of AT LEAST a block (and every
+	// other order) - every 2- and 3-part split whose cut points lie around the block sizes of the four algorithms
+	// (64 for MD5/SHA-1/SHA-256, 128 for SHA-512), counted from the start and from the end; non-periodic content, so
+	// that bytes hashed out of order change the digest; every way of writing / reading.
+	{
+		var ws []work
+		lens := []int{130, 200, 300, 1100}
+		if !r.Quick() {
+			lens = append(lens, 65, 129, 257, 4200)
+		}
+		for _, n := range lens {
+			ws = append(ws, work{stream: nonPeriodic(n), chunks: blockSplits(n)})
+		}
+		nsp := 0
+		for _, w := range ws {
+			nsp += len(w.chunks)
+		}
+		six := append(append([][]string(nil), single...), []string{"md5", "sha1", "sha256", "sha512"}, []string{"sha512", "sha256", "sha1", "md5"})
+		hashScenario(r, "block-boundary-splits", map[string]interface{}{"lengths": lens, "content": "xorshift bytes (non-periodic)",
+			"cut_points": "1 7 15 63 64 65 127 128 129 and len minus each of them", "splits": "every 2- and 3-part split over the cut points", "stream_split_pairs": nsp,
+			"algorithm_selections": "each single name, all four in both orders"}, ws, []string{"writers", "readers", "writer1", "reader1", "hasher"}, six, srcs)
+	}
+
 	// alphabet audit: integers a change introduced (n-1, n, n+1 and, for n <= 24, 2^n-1, 2^n, 2^n+1) as stream
 	// lengths and chunk sizes. Nothing on the unchanged tree.
 	if lens := auditLens(); len(lens) > 0 {
@@ -1214,6 +1237,42 @@ func Run(r *mc.Run) {
 
 	unknownScenario(r)
 	verifyScenarios(r)
+}
+
+// nonPeriodic returns n bytes of a xorshift generator (no period within the lengths used here).
+func nonPeriodic(n int) []byte {
+	b := make([]byte, n)
+	x := uint32(2463534242)
+	for i := range b {
+		x ^= x << 13
+		x ^= x >> 17
+		x ^= x << 5
+		b[i] = byte(x >> 11)
+	}
+	return b
+}
+
+// blockSplits: every 2- and 3-part split of n whose cut points are among 1 7 15 63 64 65 127 128 129 and n minus those.
+func blockSplits(n int) [][]int {
+	seen := map[int]bool{}
+	var cuts []int
+	for _, c := range []int{1, 7, 15, 63, 64, 65, 127, 128, 129} {
+		for _, p := range []int{c, n - c} {
+			if p > 0 && p < n && !seen[p] {
+				seen[p] = true
+				cuts = append(cuts, p)
+			}
+		}
+	}
+	sort.Ints(cuts)
+	var out [][]int
+	for i, a := range cuts {
+		out = append(out, []int{a, n - a})
+		for _, b := range cuts[i+1:] {
+			out = append(out, []int{a, b - a, n - b})
+		}
+	}
+	return out
 }
 
 // auditTexts: string literals a change introduced into the code (none on the unchanged tree).
